@@ -270,6 +270,15 @@ fn adversary_trace(rng: &mut SmallRng, steps: usize) -> Sim {
             cands.push((3, json!({"op": "accept", "e": "A"})));
             cands.push((2, json!({"op": "dg_get", "e": "A"})));
             cands.push((1, json!({"op": "next_bind", "e": "A"})));
+            // A's own bind requests: the raw peer may answer them with anything (any opcode on the id of a pending Bind)
+            if sim.eps[0].binds.len() < 2 {
+                let nd = rng.random_range(1..=2);
+                let draws: Vec<u32> = (0..nd).map(|_| rng.random_range(0..=3)).collect();
+                cands.push((2, json!({"op": "bind", "e": "A", "c": next_c, "bt": pick(rng, &[1, 3]), "host": pick(rng, &["b0", ""]), "port": pick(rng, &[0, 80]), "draws": draws})));
+            }
+            for c in sim.eps[0].binds.keys() {
+                cands.push((2, json!({"op": "bind_poll", "e": "A", "c": c})));
+            }
         }
         for r in sim.eps[0].breqs.keys() {
             cands.push((1, json!({"op": "bind_reply", "e": "A", "r": r, "accept": rng.random_bool(0.5)})));
@@ -294,7 +303,7 @@ fn adversary_trace(rng: &mut SmallRng, steps: usize) -> Sim {
         sim.exec(&chosen);
         if sim.out.len() > n0 {
             let ev = sim.out[sim.out.len() - 1].clone();
-            if chosen["op"] == "open" {
+            if chosen["op"] == "open" || chosen["op"] == "bind" {
                 next_c += 1;
             }
             if ev["ev"] == "take" {
